@@ -46,8 +46,9 @@ def run(ctx, chk):
     path = lf.fi.module.path
     sd, rets = lf.scenario_dict()
     if sd is None or sd[0] != "dictobj":
-        chk.violation("C17.routing", "load returns Scenario(<dict built by the loader>)",
-                      str([cn.show(t) for _, t in rets])[:200], path)
+        chk.undecided("C17.routing", "load returns Scenario(<dict built by the loader>)",
+                      "the value handed to Scenario(...) is not a dict the analysis can enumerate: "
+                      + str([cn.show(t) for _, t in rets])[:200], path)
         return
     h = ip.heap[sd[1]]
     items = {k: cn.show(v) for k, v in h["items"].items()}
@@ -235,7 +236,30 @@ def check_acceptance(ctx, chk, lf):
         from sa.canon import f_subst
         G = f_subst(G, lambda a: ("true",) if a in benign else None)
         ok = bool(f_implies(D, G))
+        if not ok:
+            # closed forms: the guard may state several documented rules at once about the whole
+            # document (a validation helper whose result is tested once, an `all(...)`)
+            from .loaderfacts import closed
+            from sa.canon import deep_atoms
+            Gc = closed(G, g.loops)
+            ga = deep_atoms(Gc) - benign
+            docs = []
+            for lp, cs in by_loops.items():
+                for c_ in cs:
+                    cc = closed(c_, list(lp))
+                    if deep_atoms(cc) & ga:
+                        docs.append(cc)
+            if docs:
+                ok = bool(f_implies(f_and(docs), Gc))
         n += 1
+        if not ok:
+            from sa.report import opaque_reason
+            why = opaque_reason(fs)
+            if why:
+                chk.undecided("C17.accept", f"{g.func.split('.')[-1]}: guard at {g.loc} demands no "
+                              "more than the documented rules", f"the guard tests a value the "
+                              f"analysis does not model ({why})", g.loc)
+                continue
         chk.ob("C17.accept", f"{g.func.split('.')[-1]}: guard `{fs[:140]}` demands no more than "
                "the documented rules", ok,
                "" if ok else f"the documented rules for this subject are `{f_show(D)[:300]}`; the "
